@@ -89,7 +89,7 @@ def handle (op : String) (j : Json) : Option (Except String Json) :=
       match src.load with
       | .error e => pure <| Json.mkObj [("loaderr", readErrName e)]
       | .ok S => pure <| Json.mkObj [("res", Json.arr (mols.map (fullOne S)).toArray),
-          ("schemewf", S.wf), ("nostar", S.noStar), ("nomolprefix", S.noMolPrefix)]
+          ("schemewf", S.wf), ("nostar", S.noStar), ("nomolprefix", S.noMolPrefix), ("connected", S.connected)]
   | "c02.descriptors" => some do
       let inp ← input j
       match getDescriptors inp with
